@@ -46,6 +46,14 @@ def gen_case(r):
         i = r.below(len(s0.rules))
         rl = s0.rules[i]
         s0 = SchemaT(s0.rules[:i] + [rl.replace(cond=c17.gen_leaf_with_paths(r, d0), cast=None)] + s0.rules[i + 1:])
+    if r.pct() < 4:
+        # sibling containers, the first a long list that a bare list part selects completely (results of several
+        # containers are put together; nothing of the document may end up shared with what is handed back and extended)
+        from ..terms import RuleT, PathT, Part
+        n_ = r.choice([33, 40, 65])
+        first = G.fill(r, n_, G.hostile_scalar)
+        d0 = [first, [G.hostile_scalar(r) for _ in range(r.between(1, 3))]] if r.coin() else {"a": first, "b": [G.hostile_scalar(r), "7"]}
+        s0 = SchemaT([RuleT(PathT([Part(r.choice(["mol", "map" if isinstance(d0, dict) else "list"])), Part("list")]), G.tree(r, ("value",), "typed", 1), r.choice([None, "int", "bool"]))] + list(s0.rules[:1]))
     schemas = [s0]
     if r.coin(40):
         schemas.append(G.schema_for(r, d0, min_rules=1, max_rules=3, mode="typed", cast_p=0, cond_depth=2))
